@@ -26,10 +26,11 @@ META = {
     'level': 'proof',
     'level_text': 'Proved for every byte string: the model of Decode(src,64) never hits a Go index panic and never exhausts fuel (the table '
                   'program is acyclic with kernel-checked rank certificate), on success 1 <= Len <= min(15,len(src)), every error carries '
-                  'Len <= len(src), a non-zero PCRel is 1, 2 or 4 with 0 < PCRelOff and PCRelOff+PCRel <= Len, a successful decode with a PC-relative field has numeric Opcode != 0 (what fixBlock tests), and the consumer scan loops '
+                  'Len <= len(src), a non-zero PCRel is 1, 2 or 4 with 0 < PCRelOff and PCRelOff+PCRel <= Len, a successful decode with a PC-relative field has numeric Opcode != 0 (what fixBlock tests), the prefix-only pseudo instruction (err=nil, Op=0) always has Len=1, PCRel=0, Opcode=0, the certified table positions are closed under the program edges, and the consumer scan loops '
                   '(ParseIns / GetFuncSize shape) strictly advance and stay in range.  The table and all constants are regenerated from the '
                   'compiled package on every run; the interpreter is tied to the real decoder by the correspondence stream.',
-    'level_note': 'Partial where the property itself is a comparison with another program: "same boundary, opcode and PC-relative field as an '
+    'level_note': 'KNOWN FINDING at HEAD: the clause "exact on compiler-emitted code" is false for VEX-encoded instructions whose opcode the table lacks (fallback to the legacy opcode, e.g. c5 fd 74 c1 -> JE rel8) and for SHA256*/ADCX/ADOX; the text walk judges those against an x/arch-independent length rule and reports them as KNOWN-FINDING (family lists in KNOWN_FINDINGS.jsonl). '
+                  'Partial where the property itself is a comparison with another program: "same boundary, opcode and PC-relative field as an '
                   'independent reference decoder on every instruction the toolchain emits" is differential evidence (every instruction of the '
                   '.text of several Go binaries, hundreds of thousands, zero tolerance), not a theorem.  Trusted: Lean kernel (axioms propext, '
                   'Classical.choice, Quot.sound), the table dumper/generator tools/x86table.py (its certificate is untrusted: re-checked by the '
@@ -84,13 +85,14 @@ def elf_list(tier):
     return [c for c in cands if c == 'self' or os.path.exists(c)]
 
 
-def text_walk(binary, tier):
+def text_walk(binary, tier, vexknown=()):
     """Runs the in-process text walk.  Returns (stats per elf, list of (ilen, window hex), '#differ'/'#oracle' lines)."""
     outp = os.path.join(C.BUILD, 'c16.text')
-    rc, log = C.run_probe(binary, 'TestVerifC16Text', '/dev/null', outp, env={'VERIF_ELFS': ':'.join(elf_list(tier))})
+    rc, log = C.run_probe(binary, 'TestVerifC16Text', '/dev/null', outp, env={'VERIF_ELFS': ':'.join(elf_list(tier)), 'VERIF_VEXKNOWN': ','.join(vexknown)})
     if rc != 0:
         raise C.Infra('C16 text walk failed: ' + log[-2000:])
     stats, wins, notes, opsd = {}, [], [], collections.Counter()
+    fams, mwins = collections.Counter(), []
     for line in open(outp):
         line = line.rstrip('\n')
         if line.startswith('#elf '):
@@ -99,6 +101,13 @@ def text_walk(binary, tier):
                 stats[os.path.basename(p[1])] = {'error': ' '.join(p[3:])}
             else:
                 stats[os.path.basename(p[1])] = {k: int(v) for k, v in (x.split('=') for x in p[2:])}
+        elif line.startswith('#fams '):
+            for kv in line.split()[2:]:
+                k, v = kv.rsplit('=', 1)
+                fams[k] += int(v)
+        elif line.startswith('M'):
+            n, h = line[1:].split()
+            mwins.append((int(n), h))
         elif line.startswith('#ops '):
             for kv in line.split()[2:]:
                 k, v = kv.split('=')
@@ -108,7 +117,7 @@ def text_walk(binary, tier):
         elif line:
             n, h = line.split()
             wins.append((int(n), h))
-    return stats, wins, notes, opsd
+    return stats, wins, notes, opsd, fams, mwins
 
 
 def mutate(rng, ilen, win):
@@ -142,7 +151,7 @@ def mutate(rng, ilen, win):
     return bytes(b[:16]).hex()
 
 
-def gen_ops(tier, rng, wins):
+def gen_ops(tier, rng, wins, mwins=(), tins=()):
     """Returns (ops, lane of each op)."""
     ops, lanes = [], []
 
@@ -162,6 +171,10 @@ def gen_ops(tier, rng, wins):
     chosen = wins[::step][:ntext] if wins else []
     for n, h in chosen:
         add(h, 'text')
+    # instructions of the walked binaries that goom mis-frames (known finding): model == implementation is still required
+    for n, h in mwins:
+        add(h, 'text-misframed')
+        add(h[:2 * n], 'text-misframed')
     # (d) truncations of sampled real instructions: every cut inside the instruction, and the exact instruction alone
     ntr = 30_000 if full else 6_000
     for _ in range(ntr if wins else 0):
@@ -207,6 +220,14 @@ def gen_ops(tier, rng, wins):
                     add((rex + pre[:-1] + ins).hex(), 'stuffed-rex')
                 elif v == 2 and k > 0:                                    # stuffing followed by random tail instead of the real one
                     add((pre + ins[:1 + rng.below(L)] + bytes(rng.below(256) for _ in range(4))).hex()[:34], 'stuffed-rex')
+    # (f) table-directed: at least one synthesised input per root-to-leaf path of the decoder table program (every opcode form the
+    #     table knows, in register / RIP-relative / SIB / disp32 addressing), alone, followed by random bytes, and cut at every length
+    for h in tins:
+        add(h, 'table')
+        b = bytes.fromhex(h)
+        add((b + bytes(rng.below(256) for _ in range(16)))[:16].hex(), 'table-padded')
+        for k in range(1, len(b)):
+            add(h[:2 * k], 'table-trunc')
     # (c) systematic short strings and random strings <= 16 bytes
     for a in range(256):
         add(f'{a:02x}', 'all1')
@@ -234,6 +255,85 @@ def gen_ops(tier, rng, wins):
             h = bytes(rng.below(256) for _ in range(n))
         add(h.hex(), 'random')
     return ops, lanes
+
+
+PROLOGUE = bytes([0x65, 0x48, 0x8b, 0x0c, 0x25, 0x30, 0x00, 0x00, 0x00, 0x48])   # func_unix.go:11, cross-checked by the c16.fsize stream
+
+
+def consumer_bin():
+    b, err = C.overlay_build('c16-consumers', 'internal/bytecode',
+                             {'zz_verif_c16_test.go': os.path.join(C.HARNESS, 'c16/consumer_probe_test.go')}, C.helper_pkgs())
+    if b is None:
+        raise C.Infra('C16 consumer probe does not build against the current tree:\n' + err[-3000:])
+    return b
+
+
+def gen_consumer_ops(tier, rng, wins):
+    """code blocks made of real instructions (with a bias to long ones), optionally ending in a cut or mutated instruction;
+    c16.scan runs the ParseIns loop over the block, c16.fsize runs GetFuncSize over block + INT3 padding + prologue."""
+    ops = []
+    longs = [w for w in wins if w[0] >= 9] or wins
+    n = 20000 if tier == 'thorough' else 2500
+    for _ in range(n):
+        code = b''
+        for _ in range(1 + rng.below(10)):
+            k, h = (lambda pool: pool[rng.below(len(pool))])(longs if rng.chance(1, 4) else wins)
+            code += bytes.fromhex(h[:2 * k])
+        t = rng.below(5)
+        if t == 0:
+            k, h = wins[rng.below(len(wins))]
+            code += bytes.fromhex(h[:2 * k])[:max(1, rng.below(k + 1))]
+        elif t == 1:
+            k, h = wins[rng.below(len(wins))]
+            code += bytes.fromhex(mutate(rng, k, h))[:k]
+        elif t == 2:
+            code += bytes(rng.choice(PREFIXES) for _ in range(1 + rng.below(3)))
+        ops.append('c16.scan ' + code.hex())
+        img = code + b'\xcc' * (16 + rng.below(17)) + PROLOGUE + bytes(16)
+        ops.append('c16.fsize ' + img.hex())
+    for k, h in longs[:400]:
+        ops.append('c16.scan ' + h[:2 * k] * 2)
+    return list(dict.fromkeys(ops))
+
+
+def run_consumers(tier, rng, wins, out):
+    ops = gen_consumer_ops(tier, rng, wins)
+    if len(ops) < 1000:
+        raise C.Infra('C16 consumer lane is (almost) empty')
+    b = consumer_bin()
+    ops_path = os.path.join(C.BUILD, 'c16c.ops')
+    open(ops_path, 'w').write('\n'.join(ops) + '\n')
+    outp = os.path.join(C.BUILD, 'c16c.impl')
+    rc, log = C.run_probe(b, 'TestVerifC16Consumers', ops_path, outp)
+    if rc != 0:
+        rc, log = C.run_probe(b, 'TestVerifC16Consumers', ops_path, outp)      # once more: a crash that reproduces is real
+    impl = C.read_indexed(outp, len(ops))
+    exe, err = C.build_driver()
+    if exe is None:
+        raise C.Infra('goomdrv does not build: ' + err[-500:])
+    model = run_driver_sharded(exe, ops, 'c16c')
+    nbad = 0
+    for i, op in enumerate(ops):
+        kind, h = op.split()
+        o = impl[i]
+        why = None
+        if o is None:
+            why = 'consumer probe died on this input (rc=%d)' % rc
+        elif not (o.startswith('pos=') or o.startswith('size=')):
+            why = 'consumer loop: ' + o
+        elif int(o.split('=')[1]) > len(h) // 2:
+            why = 'consumer loop ran past the code: ' + o
+        if why and nbad < 2:
+            nbad += 1
+            out.violation(f'{kind}: {why}', {'kind': 'consumer-oracle', 'ops': [op], 'observed': o, 'model': model[i]})
+    diffs = C.diff_streams(ops, impl, model)
+    if diffs and not nbad:
+        i, op, a, m = diffs[0]
+        out.violation(f'model of the consumer loop and the real {"ParseIns loop" if op.startswith("c16.scan") else "GetFuncSize"} disagree',
+                      {'kind': 'consumer-correspondence', 'ops': [op], 'impl': a, 'model': m, 'n_disagreements_shown': len(diffs)},
+                      no_failing_input=True)
+    return {'ops': len(ops), 'scan': sum(1 for o in ops if o.startswith('c16.scan')), 'fsize': sum(1 for o in ops if o.startswith('c16.fsize')),
+            'equal_to_model': len(ops) - len(diffs)}
 
 
 def run_driver_sharded(exe, ops, tag, shards=None):
@@ -317,7 +417,7 @@ def run(tier):
     rng = C.Rng(C.seed()).fork('C16')
     t0 = time.time()
     try:
-        tstats, changed, _ = x86table.regen()
+        tstats, changed, dump = x86table.regen()
         gen_ok, gen_msg = True, ''
     except C.Infra as e:
         tstats, changed, gen_ok, gen_msg = {}, [], False, str(e)
@@ -327,8 +427,22 @@ def run(tier):
         proof = {'ok': False, 'failed': [('table-dump', gen_msg)], 'obligations': 0, 'discharged': 0, 'cmds': [], 'axioms': {}}
     t_proof = time.time() - t0
     binary = probe_bin()
-    estats, wins, notes, opsd = text_walk(binary, tier)
-    ops, lanes = gen_ops(tier, rng, wins)
+    tins, npaths, vexknown = x86table.table_inputs(dump) if gen_ok else ([], 0, [])
+    estats, wins, notes, opsd, fams, mwins = text_walk(binary, tier, vexknown)
+    # floors: a walk that silently covered nothing is a machinery failure, not a pass
+    for name, st in estats.items():
+        if 'error' in st:
+            raise C.Infra(f'C16 text walk: {name}: {st["error"]}')
+        if st.get('funcs', 0) < 1000 or st.get('instrs', 0) < 100_000:
+            raise C.Infra(f'C16 text walk: {name}: only {st.get("funcs")} functions / {st.get("instrs")} instructions walked')
+        if st.get('unknown_abandoned', 0) * 200 > st['funcs']:
+            raise C.Infra(f'C16 text walk: {name}: {st["unknown_abandoned"]} functions abandoned (neither the reference nor the length rule applies)')
+    if len(estats) < 3 or len(wins) < 50_000 or sum(st.get('rule_validated', 0) for st in estats.values()) < 200:
+        raise C.Infra(f'C16 text walk too small: {len(estats)} ELF files, {len(wins)} distinct instructions')
+    ops, lanes = gen_ops(tier, rng, wins, mwins, tins)
+    for need in ('text', 'trunc', 'mutated', 'stuffed', 'table', 'table-trunc', 'random', 'all2'):
+        if lanes.count(need) == 0:
+            raise C.Infra(f'C16 generator lane `{need}` is empty')
     seen, o2, l2 = set(), [], []
     for o, l in zip(ops, lanes):
         if o not in seen:
@@ -338,6 +452,18 @@ def run(tier):
     ops, lanes = o2, l2
     impl, ref, model, derr = execute(ops, binary=binary)
 
+    # table coverage of the whole stream, measured by goom's own decoderCover hook
+    cov_stats = {}
+    covp = os.path.join(C.BUILD, 'c16.impl.cover')
+    if gen_ok and os.path.exists(covp):
+        covered = {int(x) for x in open(covp) if x.strip()}
+        cert, _ = x86table.analyse(dump)
+        reach = set(cert) - {0}
+        un = sorted(reach - covered)
+        cov_stats = {'table_positions_reachable_mode64 (static over-approximation)': len(reach), 'executed_by_this_stream': len(reach & covered),
+                     'never_executed': len(un), 'never_executed_pcs': un[:80], 'table_paths_enumerated': npaths, 'vex_opcodes_with_a_table_entry': len(vexknown), 'table_inputs': len(tins)}
+        if len(un) * 100 > len(reach):
+            raise C.Infra(f'C16 stream executed only {len(reach & covered)} of {len(reach)} reachable table positions (floor 99%)')
     # 1. the property on the implementation (ops stream + the in-process walk over every instruction of the binaries)
     bad = []
     for i, op in enumerate(ops):
@@ -359,15 +485,55 @@ def run(tier):
         h = line.split()[1]
         out.violation('goom and the reference decoder disagree on an instruction the toolchain emitted: ' + line[8:300],
                       {'kind': 'reference-disagreement', 'ops': ['c16.dec ' + h], 'why': line})
+    # 2b. instructions of the walked binaries whose true boundary (independent length rule; the reference is blind or wrong there)
+    #     goom does not report.  Known finding for exactly the opcode families listed in KNOWN_FINDINGS.jsonl that goom's table lacks;
+    #     a new family, or an opcode the table has but frames wrongly, is a violation.
+    kf_fams = {}
+    for kf in C.known_findings('C16'):
+        for f in kf.get('match', {}).get('families', []):
+            kf_fams[f] = kf['match']['key']
+    mis_lines = {}
+    for line in notes:
+        if line.startswith('#misframed '):
+            mis_lines.setdefault(line.split()[1], line)
+    for k in sorted(fams):
+        cls, fam = k.split(':', 1)
+        line = mis_lines.get(k, '')
+        h = line.split()[2] if line else ''
+        key = kf_fams.get(fam) if cls == 'unknown-to-table' else None
+        out.violation(f'goom mis-frames a toolchain-emitted instruction ({k}, {fams[k]} occurrences): ' + line[11:330],
+                      {'kind': 'text-misframed', 'ops': ['c16.dec ' + h] if h else [], 'family': k, 'why': line}, key=key)
+    for tag, kind in (('#strpanic', 'impl-oracle'), ('#strdiffer', 'reference-disagreement'), ('#rulediff', 'reference-disagreement')):
+        for line in [n for n in notes if n.startswith(tag)][:2]:
+            h = line.split()[1]
+            out.violation({'#strpanic': 'Inst.String() panicked on a toolchain-emitted instruction: ',
+                           '#strdiffer': 'Inst.String() of goom and of the reference differ on a toolchain-emitted instruction: ',
+                           '#rulediff': 'the independent length rule and the reference disagree on the boundary of a toolchain-emitted instruction: '}[tag]
+                          + line[len(tag) + 1:300], {'kind': kind, 'ops': ['c16.dec ' + h], 'why': line})
+    aux = C.read_indexed(os.path.join(C.BUILD, 'c16.impl.aux'), len(ops))
     refdiff = collections.Counter()
     unexplained = []
     for i, op in enumerate(ops):
         if impl[i] != ref[i] and impl[i] is not None and ref[i] is not None:
+            if lanes[i] == 'text-misframed':
+                refdiff['known mis-framed toolchain instruction (reference blind or wrong too)'] += 1
+                continue
             fam = None if lanes[i] == 'text' else changed_encoding(op.split()[1])
+            if fam is None and lanes[i] != 'text' and aux[i] and aux[i].startswith('rule '):
+                # the reference is blind (error / prefix-only) and goom's boundary is confirmed by the independent length rule:
+                # goom knows an opcode the reference lacks — not a defect of goom
+                g, r = parse(impl[i]), parse(ref[i])
+                if (r[0] != 'ok' or r[2] == 'Op(0)') and g[0] == 'ok' and g[2] != 'Op(0)' and g[1] == int(aux[i].split()[1]):
+                    fam = 'goom knows more than the reference (boundary confirmed by the independent length rule)'
             if fam is None:
                 unexplained.append(i)
             else:
                 refdiff['newer-table family: ' + fam] += 1
+    strdiff = [i for i in range(len(ops)) if aux[i] and aux[i].startswith('str ') and changed_encoding(ops[i].split()[1]) is None]
+    if not bad:
+        for i in strdiff[:2]:
+            out.violation(f'Inst.String() of goom and of the reference differ on `{ops[i]}` although (err, Len, Op, PCRel, PCRelOff, Opcode) agree: '
+                          + aux[i][4:200], {'kind': 'reference-disagreement', 'ops': [ops[i]], 'impl': impl[i], 'reference': ref[i], 'text': aux[i]})
     if not bad:
         for i in unexplained[:2]:
             out.violation(f'goom and the reference decoder disagree on `{ops[i]}` ({lanes[i]} lane) outside the stated classes',
@@ -387,6 +553,7 @@ def run(tier):
             out.violation('proof obligations of Props/C16.lean no longer check and no failing input was found in the search',
                           {'kind': 'proof', 'broken': proof['failed'], 'searched': len(ops), 'output': proof.get('output', '')[-3000:]},
                           no_failing_input=True)
+    cstats = run_consumers(tier, rng, wins, out)
     # evidence
     errs, lens_, pcw, opnames, lanec = collections.Counter(), collections.Counter(), collections.Counter(), set(), collections.Counter(lanes)
     nontrivial = 0
@@ -420,9 +587,9 @@ def run(tier):
                 'zero tolerance.  non-trivial = distinct byte string on which goom returns a real opcode (err=ok, Op != 0).',
         'distribution': {'lanes': dict(lanec), 'impl_result_classes': dict(errs), 'len_histogram': {str(k): v for k, v in sorted(lens_.items())},
                          'pcrel_width_histogram': {str(k): v for k, v in sorted(pcw.items())}, 'distinct_opcodes_in_stream': len(opnames),
-                         'text_walk': estats, 'text_walk_distinct_opcodes': len(opsd), 'text_walk_instructions_differing_from_reference': text_differ,
-                         'reference_differences_on_synthetic_strings_by_class': dict(refdiff), 'reference_differences_unexplained': len(unexplained),
-                         'table': tstats, 'gen_modules_changed_this_run': changed, 'proof_wall_s': round(t_proof, 1)},
+                         'text_walk': estats, 'text_walk_misframed_families': dict(fams), 'text_walk_distinct_opcodes': len(opsd), 'text_walk_instructions_differing_from_reference': text_differ,
+                         'reference_differences_on_synthetic_strings_by_class': dict(refdiff), 'reference_differences_unexplained': len(unexplained), 'rendered_text_differences (Inst.String, equal tuples)': len(strdiff),
+                         'table': tstats, 'table_coverage': cov_stats, 'consumer_loops (ParseIns scan, GetFuncSize) real vs model': cstats, 'gen_modules_changed_this_run': changed, 'proof_wall_s': round(t_proof, 1)},
         'explanation': 'Agreement with the reference decoder on toolchain-emitted instructions is measured (differential), not proved.',
         'samples': [{'op': ops[i], 'impl': impl[i], 'model': model[i] if model else None, 'ref': ref[i]} for i in pick if i < len(ops)],
     }
@@ -432,6 +599,21 @@ def run(tier):
 
 def replay(body):
     ops = body.get('ops', [])
+    if ops and ops[0].split()[0] in ('c16.scan', 'c16.fsize'):
+        b = consumer_bin()
+        ops_path = os.path.join(C.BUILD, 'c16c-replay.ops')
+        open(ops_path, 'w').write('\n'.join(ops) + '\n')
+        outp = os.path.join(C.BUILD, 'c16c-replay.impl')
+        C.run_probe(b, 'TestVerifC16Consumers', ops_path, outp)
+        impl = C.read_indexed(outp, len(ops))
+        exe, _ = C.build_driver()
+        model = run_driver_sharded(exe, ops, 'c16c-replay', shards=1)
+        rc = 0
+        for i, op in enumerate(ops):
+            print(f'{op}\n  impl : {impl[i]}\n  model: {model[i]}')
+            if impl[i] != model[i]:
+                rc = 1
+        return rc
     impl, ref, model, _ = execute(ops, tag='c16-replay')
     rc = 0
     for i, op in enumerate(ops):
@@ -439,6 +621,8 @@ def replay(body):
         print(f'{op}\n  impl : {impl[i]}\n  model: {model[i] if model else None}\n  ref  : {ref[i]}\n  oracle: {why or "ok"}')
         if why or (model and impl[i] != model[i]) or (body.get('kind') == 'reference-disagreement' and impl[i] != ref[i]):
             rc = 1
+        if body.get('kind') == 'text-misframed':
+            rc = 1 if impl[i] == body.get('observed_at_report', impl[i]) else rc
     return rc
 
 
